@@ -87,6 +87,7 @@ def plan(tier, seed):
                     for m in maps(nb, na):
                         scs.append(dict(A=ai, B=bi, mode=mode, rev=rev, map=m))
     scs += [dict(scale=i) for i in range(5)]
+    scs += [dict(reuse=[ai, bi, mi, order, via]) for ai in range(3) for bi in range(3) for mi in range(3) for order in (0, 1) for via in ('default', 'offsets')]
     return dict(scenarios=scs, exhaustive=True, chunk=200,
                 menus=dict(A=[x[0] for x in A_MENU], B=[x[0] for x in B_MENU], modes=MODES, term_direction=['as listed', 'reversed'],
                            maps='every injective partial map B->A' + (' (<=2 pairs in shared mode)' if tier == 'quick' else '')),
@@ -131,8 +132,80 @@ def scale_case(i):
     return A, B, {j: 299 - 2 * j for j in range(0, 40, 3)}
 
 
+def swapped_columns(a):
+    """the same structure with the extra columns of every kind listed in reverse order"""
+    kwb = describe_kwargs(a)
+    for k in ['atom'] + KINDS:
+        labels = kwb.get('extra_%s_labels' % k)
+        if labels and len(labels) > 1:
+            kwb['extra_%s_labels' % k] = labels[::-1]; kwb['extra_%s_fields' % k] = [tuple(row[::-1]) for row in kwb['extra_%s_fields' % k]]
+    return Atoms(**kwb)
+
+
+def describe_kwargs(a):
+    kw = dict(atom_types=[int(t) for t in a.atom_types], positions=np.array(a.positions, dtype=float), charges=[float(x) for x in a.charges], groups=[int(x) for x in a.groups],
+              atom_type_masses=[float(x) for x in a.atom_type_masses], atom_type_elements=[str(x) for x in a.atom_type_elements], atom_type_labels=[str(x) for x in a.atom_type_labels], pair_coeffs=[str(x) for x in a.pair_coeffs])
+    if a.cell is not None:
+        kw['cell'] = np.array(a.cell, dtype=float)
+    for k in KINDS:
+        kw[ATTR[k]] = [tuple(int(x) for x in row) for row in np.asarray(getattr(a, ATTR[k])).reshape(-1, ARITY[k])]
+        kw[k + '_types'] = [int(x) for x in getattr(a, k + '_types')]; kw[k + '_type_coeffs'] = [str(x) for x in getattr(a, k + '_type_coeffs')]
+    for k in ['atom'] + KINDS:
+        labels = list(getattr(a, 'extra_%s_labels' % k))
+        if labels:
+            kw['extra_%s_labels' % k] = labels
+            kw['extra_%s_fields' % k] = [tuple(str(v) for v in row) for row in np.asarray(getattr(a, 'extra_%s_fields' % k)).reshape(-1, len(labels))]
+    return kw
+
+
+def run_reuse(sc, out):
+    """ONE fragment object and ONE identity-map dict used for two extensions: of a structure and of the same structure with its extra
+    columns listed in another order.  Both results must be right, and fragment and map must come back as they were."""
+    ai, bi, mi, order, via = sc['reuse']
+    A1 = [lambda: mk(3, True, xf=True), lambda: mk(4, True, xf=True, tag='cd'), lambda: mk(4, True)][ai]()
+    A2 = swapped_columns(A1)
+    frag = [lambda: mk(3, True, xf=True, tag='xy', shift=7.0), lambda: mk(2, True, xf=True, tag='ab', shift=7.0), lambda: mk(3, True, tag='uv', shift=7.0)][bi]()
+    n = len(A1.atom_types)
+    md = [{}, {0: n - 1}, {1: 0, 0: 1}][mi]; m0 = dict(md)
+    fb = raw_state(frag)
+    targets = [('the structure', A1), ('the structure with its extra columns in reverse order', A2)]
+    if order:
+        targets = targets[::-1]
+    for ti, (tname, T) in enumerate(targets):
+        ref = RefStructure.of(T); refF = RefStructure.of(frag, uid0=1000 * (ti + 1)) if raw_state(frag) == fb else None
+        if refF is None:
+            break
+        if via == 'default':
+            r, err = call(T.extend, frag, structure_index_map=md)
+        else:
+            off, err = call(T.extend_types, frag)
+            if not err:
+                r, err = call(T.extend, frag, offsets=off, structure_index_map=md)
+            refF = RefStructure.of(frag, uid0=1000 * (ti + 1), origin='B') if raw_state(frag) == fb else refF
+        ref.extend(refF, m0)
+        out['evals'] += 1; out['compared'] += 1
+        what = 'extension %d of 2 with the same fragment object and map object (%s, %s)' % (ti + 1, tname, via)
+        if err:
+            out['violations'].append(viol('extend-exact', 'reuse-exc:' + exc_sig(err), '%s raised %r' % (what, err[0]), sc)); break
+        try:
+            d = compare_views(view(T), ref.view())
+        except Inconsistent as e:
+            d = 'inconsistent object (%s): %s' % (e.clause, e)
+        if d:
+            out['violations'].append(viol('extend-exact', 'reuse-view', '%s: %s' % (what, d[:500]), sc)); break
+        if md != m0:
+            out['violations'].append(viol('other-unmodified', 'map-modified', '%s changed the identity map it was given: %r -> %r' % (what, m0, md), sc)); break
+        if raw_state(frag) != fb:
+            d = [i for i, (x, y) in enumerate(zip(fb, raw_state(frag))) if x != y]
+            out['violations'].append(viol('other-unmodified', 'other-modified', '%s modified the fragment (raw-state fields %r)' % (what, d[:6]), sc)); break
+    out['hashes'].add(h64(sc)); out['nontrivial'] = 1; out['outcomes']['fragment and map reused'] = 1
+    return out
+
+
 def run(sc, ctx):
     out = dict(evals=0, compared=0, violations=[], outcomes={}, hashes=set(), nontrivial=0)
+    if 'reuse' in sc:
+        return run_reuse(sc, out)
     if 'scale' in sc:
         A, B, m = scale_case(sc['scale'])
         a = A.copy(); b = B.copy(); ref = RefStructure.of(A)
